@@ -96,6 +96,18 @@ type hist struct {
 	restarts  int
 	desc      []string
 	ffg       *ffgModel
+	// trace records how each event was resolved (which block, which link); a history replayed on
+	// another node of the same world (C19 re-delivery) sets script to a recorded trace so that it
+	// is shown exactly the same blocks and messages whatever that node already has in its store
+	trace  []resolvedEv
+	script []resolvedEv
+}
+
+// resolvedEv is an event with its selectors resolved against the world.
+type resolvedEv struct {
+	K        string // "b", "v", "r", "noop"
+	Block    int
+	Src, Tgt int
 }
 
 func newHist(c evCase) (*hist, error) {
@@ -129,6 +141,7 @@ func (h *hist) step(e ev) (string, error) {
 	switch e.K {
 	case "b":
 		if len(h.remaining) == 0 {
+			h.trace = append(h.trace, resolvedEv{K: "noop"})
 			return "noop", nil
 		}
 		s := e.A
@@ -138,6 +151,7 @@ func (h *hist) step(e ev) (string, error) {
 		s %= len(h.remaining)
 		i := h.remaining[s]
 		h.remaining = append(h.remaining[:s], h.remaining[s+1:]...)
+		h.trace = append(h.trace, resolvedEv{K: "b", Block: i})
 		var derr error
 		_, hung, dump := callWithWatchdog(callLimit, func() error { _, derr = h.n.Deliver(i); return nil })
 		if hung {
@@ -149,12 +163,24 @@ func (h *hist) step(e ev) (string, error) {
 		}
 		return fmt.Sprintf("block #%d (h=%d, parent #%d) -> %v", i, h.w.Blocks[i].Block.Height, h.w.Blocks[i].Parent, derr), nil
 	case "v":
-		cps := h.knownCheckpoints()
-		if len(cps) == 0 {
-			return "noop", nil
+		var tgt, src int
+		if h.script != nil {
+			r := h.script[len(h.trace)]
+			if r.K != "v" {
+				h.trace = append(h.trace, resolvedEv{K: "noop"})
+				return "noop", nil
+			}
+			tgt, src = r.Tgt, r.Src
+		} else {
+			cps := h.knownCheckpoints()
+			if len(cps) == 0 {
+				h.trace = append(h.trace, resolvedEv{K: "noop"})
+				return "noop", nil
+			}
+			tgt = cps[abs(e.A)%len(cps)]
+			src = h.w.CheckpointBack(tgt, 1+abs(e.B)%3)
 		}
-		tgt := cps[abs(e.A)%len(cps)]
-		src := h.w.CheckpointBack(tgt, 1+abs(e.B)%3)
+		h.trace = append(h.trace, resolvedEv{K: "v", Src: src, Tgt: tgt})
 		vals := h.w.ValidatorsFor(tgt)
 		d := fmt.Sprintf("votes #%d->#%d (h %d->%d) slots", src, tgt, h.w.Blocks[src].Block.Height, h.w.Blocks[tgt].Block.Height)
 		for slot := 0; slot < len(vals); slot++ {
@@ -196,8 +222,10 @@ func (h *hist) step(e ev) (string, error) {
 			return "", fmt.Errorf("restart %d failed: %v", h.restarts+1, err)
 		}
 		h.restarts++
+		h.trace = append(h.trace, resolvedEv{K: "r"})
 		return "restart", nil
 	}
+	h.trace = append(h.trace, resolvedEv{K: "noop"})
 	return "noop", nil
 }
 
